@@ -39,6 +39,18 @@ def run(rep, tier, seed, replay=None):
                 cid = f"s{k}"
                 cases.append(f"{cid} {path} {order[0]} {order[1]} {order[2]} {n}")
                 exp[cid] = "ERR InvalidInput" if zero else f"OK c{'-' if c == '-' else '+' + c} r{'-' if r == '-' else '+' + r} w{'-' if w == '-' else '+' + w} n{n} SOCK OK "
+    # what the sockets and retry loops are handed: the *_or_default(s) helpers return the READ, WRITE, CONNECT durations
+    # and the retry count of the settings (or the defaults) — each under its own name
+    for r, w, c in itertools.product(DURS, repeat=3):
+        if "0:0" in (r, w, c):
+            continue
+        k += 1
+        cid = f"s{k}"
+        n = RETRIES[k % len(RETRIES)]
+        cases.append(f"{cid} settings-eff {r} {w} {c} {n}")
+        exp[cid] = f"EFF r{'-' if r == '-' else '+' + r} w{'-' if w == '-' else '+' + w} c{'-' if c == '-' else '+' + c} n{n}"
+    cases.append("seff settings-eff none")
+    exp["seff"] = "EFF r+4:0 w+4:0 c+4:0 n0"
     flag_sets = list(itertools.product(FLAGS, repeat=3))
     if tier == "quick":
         flag_sets = rnd.sample(flag_sets, 250) + [("_", "_", "_"), ("0", "_", "_"), ("_", "0", "_"), ("_", "_", "0")]
